@@ -36,6 +36,9 @@ def run_mutant(prop, m, tier='quick'):
         if p.returncode == 1:
             return 'caught ' + '; '.join(s[:100] for s in sigs[:2])
         if p.returncode == 0:
+            if m.get("equivalent"):
+                return 'not caught (listed as equivalent: %s)' % \
+                    m["equivalent"][:90]
             return 'MISSED'
         return 'ERROR rc=%d %s' % (p.returncode, p.stderr[-300:])
     finally:
